@@ -15,7 +15,7 @@ class RecurrentVarNetConfig(ModelConfig):
     recurrent_num_layers: int = 4  # :math:`n_l`
     no_parameter_sharing: bool = True
     learned_initializer: bool = True
-    initializer_initialization: Optional[str] = InitType.SENSE
+    initializer_initialization: Optional[str] = InitType.SENSE.value
     initializer_channels: Optional[Tuple[int, ...]] = (32, 32, 64, 64)  # :math:`n_d`
     initializer_dilations: Optional[Tuple[int, ...]] = (1, 1, 2, 4)  # :math:`p`
     initializer_multiscale: int = 1
